@@ -311,7 +311,8 @@ def ref_normal(p):
     mp = _mp()
     x, mu, s = mpf(p['x']), mpf(p['mu']), mpf(p['sigma'])
     z = (x - mu) / s
-    return -mp.log(s * mp.sqrt(2 * mp.pi)) - z * z / 2, abs(mp.log(s * mp.sqrt(2 * mp.pi))) + z * z / 2 + 1
+    # T: magnitudes of the terms + sensitivity to one rounding of the inputs: |x d/dx| + |mu d/dmu| = |z| (|x| + |mu|) / sigma
+    return -mp.log(s * mp.sqrt(2 * mp.pi)) - z * z / 2, abs(mp.log(s * mp.sqrt(2 * mp.pi))) + z * z / 2 + 1 + abs(z) * (abs(x) + abs(mu)) / s
 
 
 def ref_poisson(p):
@@ -325,6 +326,14 @@ def ref_poisson(p):
 def ref_cdf(p):
     mp = _mp()
     return mp.ncdf((mpf(p['x']) - mpf(p['mu'])) / mpf(p['sigma']))
+
+
+def cdf_cond(p):
+    """relative condition number of Phi((x-mu)/sigma) with respect to one rounding of x, mu: |d ln Phi / dz| * (|x|+|mu|)/sigma,
+    with |d ln Phi/dz| = phi/Phi <= |z| + 1 (Mills ratio) in the lower tail and <= 1 above"""
+    x, mu, s = p['x'], p['mu'], p['sigma']
+    z = (x - mu) / s
+    return (abs(z) + 1 if z < 0 else 1.0) * (abs(x) + abs(mu)) / s + 1
 
 
 def to_frac(m, bits=170):
@@ -505,6 +514,10 @@ def fr(v):
     return Fraction(*float(v).as_integer_ratio())
 
 
+def finite(v):
+    return v is not None and v == v and abs(v) != float('inf')
+
+
 def tol_log(p, prec):
     """absolute tolerance on a log-density: max(relative 1e-10 (1e-4 for 32b), k ulp of the largest term involved), plus the
     half-width of the certified enclosure of the reference"""
@@ -519,6 +532,8 @@ def regime(fam, p):
     if fam == 'poisson':
         n = p['n']
         a = 'nonint' if n != int(n) else 'int<=170' if n <= 170 else 'int-large'
+        if p['lam'] < TINY['64b'] or (p['set'] == 'A' and p['lam'] < TINY['32b']):
+            return 'subnormal-rate'
         return a + (':tiny-rate' if p['lam'] < 1e-3 else '')
     z = (p['x'] - p['mu']) / p['sigma']
     return 'lower-tail' if z < -8 else 'upper-tail' if z > 8 else 'bulk'
@@ -535,7 +550,7 @@ def compare_all(backend, prec, pts, got):
         okv = v is not None and v == v and abs(v) != float('inf') and abs(fr(v) - ref) <= tol
         if not okv:
             bad.append(dict(func='%s.%s' % (fam, what), backend=backend, prec=prec, args={k: p[k] for k in p if k in ('x', 'mu', 'sigma', 'n', 'lam')},
-                            impl=v, expected=float(ref), tol=float(tol), regime=regime(fam, p), reference=p.get('cert'), **(extra or {})))
+                            impl=v, expected=float(ref), tol=float(tol), regime=regime(fam, dict(p, set=p.get('set', 'A'))), reference=p.get('cert'), **(extra or {})))
     for fam in ('normal', 'poisson'):
         g = got[fam]
         for i, p in enumerate(pts[fam]):
@@ -545,14 +560,19 @@ def compare_all(backend, prec, pts, got):
             t = tol_log(p, prec)
             chk(fam, 'log', i, p, v, p['ref'], t)
             # non-log = exp(log): relative error of exp = absolute error of its argument
-            e = to_frac(mp.exp(mpf(p['ref'])))
-            tn = e * (t + 4 * Fraction(EPS[prec])) + Fraction(TINY[prec])
-            if e < Fraction(10) ** 300 * (1 if prec == '64b' else Fraction(1, 10 ** 262)):
+            if p['ref'] < -1200:
+                e = Fraction(0)         # far below the smallest subnormal
+            else:
+                e = to_frac(mp.exp(mpf(p['ref'])))
+            # exp turns an absolute error t of the log into a relative error exp(t) - 1 <= t + t^2 (t <= 1); if the log itself is only
+            # known to more than +-1 (float32 with terms of 1e7 and more) its exponential carries no information and is not compared
+            tn = e * (t + t * t + 4 * Fraction(EPS[prec])) + Fraction(TINY[prec])
+            if p['ref'] < (700 if prec == '64b' else 80) and t <= 1:
                 chk(fam, 'nonlog', i, p, g['nonlog'][i], e, tn)
             # the distribution object gives the same number as the function (same kernel: a few ulp of the largest term)
             ncmp += 1
             d = g['dist'][i]
-            if d is None or d != d or abs(fr(d) - fr(v)) > Fraction(4 * EPS[prec]) * fr(float(p['T'])):
+            if finite(v) and (not finite(d) or abs(fr(d) - fr(v)) > Fraction(4 * EPS[prec]) * fr(float(p['T']))):
                 bad.append(dict(func='%s.dist' % fam, backend=backend, prec=prec, args={k: p[k] for k in p if k in ('x', 'mu', 'sigma', 'n', 'lam')},
                                 impl=d, expected=v, tol=4 * EPS[prec] * float(p['T']), regime=regime(fam, p), reference='function form'))
     for i, p in enumerate(pts['cdf']):
@@ -560,21 +580,25 @@ def compare_all(backend, prec, pts, got):
         if v is None:
             continue
         # relative accuracy down to the smallest normal number; below it (subnormal results) only the absolute error is bounded
-        t = Fraction(REL[prec]) * p['ref'] + Fraction(TINY[prec]) + p['ref_err']
+        t = (Fraction(REL[prec]) + Fraction(KULP[prec] * EPS[prec]) * fr(cdf_cond(p))) * p['ref'] + Fraction(TINY[prec]) + p['ref_err']
         chk('cdf', 'cdf', i, p, v, p['ref'], t)
     z = got['rate0']
     for n, l, e, d in zip(z['n'], z['log'], z['nonlog'], z['dist']):
         ncmp += 2
         want_l, want_e = (0.0, 1.0) if n == 0 else (float('-inf'), 0.0)
+        slack = KULP[prec] * EPS[prec]          # lgamma(1) = 0 is reached only up to a few ulp of 1 by Lanczos-type kernels
+        if n == 0 and all(finite(t_) and abs(t_) <= slack for t_ in (l, d)) and finite(e) and abs(e - 1.0) <= 2 * slack:
+            continue
         if l != want_l or d != want_l:
             bad.append(dict(func='poisson.log', backend=backend, prec=prec, args=dict(n=n, lam=0.0), impl=[l, d], expected=want_l, tol=0, regime='rate0', reference='limit'))
         if e != want_e:
             bad.append(dict(func='poisson.nonlog', backend=backend, prec=prec, args=dict(n=n, lam=0.0), impl=e, expected=want_e, tol=0, regime='rate0', reference='limit'))
     ind = got['independent']
     ncmp += 1
-    s = sum(fr(x) for x in ind['pieces'])
-    mag = sum(abs(fr(x)) for x in ind['pieces']) + 1
-    if len(ind['total']) != 1 or abs(fr(ind['total'][0]) - s) > Fraction(16 * EPS[prec]) * mag:
+    pieces = [x for x in ind['pieces'] if finite(x)]
+    s = sum(fr(x) for x in pieces)
+    mag = sum(abs(fr(x)) for x in pieces) + 1
+    if len(pieces) == len(ind['pieces']) and (len(ind['total']) != 1 or not finite(ind['total'][0]) or abs(fr(ind['total'][0]) - s) > Fraction(16 * EPS[prec]) * mag):
         bad.append(dict(func='independent.log_prob', backend=backend, prec=prec, args=dict(pieces=ind['pieces']), impl=ind['total'], expected=float(s),
                         tol=float(Fraction(16 * EPS[prec]) * mag), regime='sum', reference='sum of the pieces'))
     if not got['type_ok']:
@@ -644,6 +668,16 @@ def run(ctx):
                         'norm.pdf is the normal density (for normal = exp(normal_logpdf)); torch.erfc is the complementary error function',
                         'IEEE rounding is covered only through the stated tolerance (validated_not_proved)']
     pts = gen_points(rng, ctx.n(40, 400), ctx.quick)
+    cdir = os.path.join(core.VERIF, 'corpus', 'C04')
+    ncorpus = 0
+    if os.path.isdir(cdir):
+        for fn in sorted(os.listdir(cdir)):
+            if fn.endswith('.json'):
+                doc = json.load(open(os.path.join(cdir, fn)))
+                for fam in ('normal', 'poisson', 'cdf'):
+                    for p in doc.get(fam, []):
+                        pts[fam].insert(0, {k: (float(v) if k != 'set' else v) for k, v in p.items()})
+                        ncorpus += 1
     goals = cert_goals(pts, ctx.quick)
     xs_int = [-5.0, -3.0, -1.0, 0.5, 2.5, 4.0] if ctx.quick else [-5.0, -4.0, -3.0, -2.0, -1.0, -0.25, 0.5, 1.5, 2.5, 4.0, 5.0]
     ig = integral_goals(xs_int)
@@ -690,6 +724,9 @@ def run(ctx):
             per_setting[key] = dict(comparisons=n, failures=len(bad))
     for f in failures:
         sig = '%s:%s:%s:%s' % (f['func'], f['backend'], f['prec'], f['regime'])
+        if f['regime'] == 'subnormal-rate':
+            # the kernels of some backends treat subnormal inputs as zero (or read them wrongly, depending on the vector lane): one finding
+            sig = '%s:%s:subnormal-rate' % (f['func'], f['backend'])
         ctx.violation(sig, '%s on %s/%s at %r gives %r, exact value %r (tolerance %.3g, reference: %s)' % (
             f['func'], f['backend'], f['prec'], f['args'], f['impl'], f['expected'], f['tol'], f['reference']),
             dict(kind='point', theorem='C04 validation (%s)' % f['reference'], **f))
@@ -712,7 +749,7 @@ def run(ctx):
              'of the formula (|n ln lambda| + lambda + |lgamma(n+1)|, resp. |ln(sigma sqrt(2 pi))| + z^2/2): the relative rule applies unless the terms cancel; '
              '32b: max(1e-4*|exact|, 16 ulp32 * T). cdf: relative 1e-10 (1e-4) down to the smallest normal number, absolute below it (subnormal results may '
              'flush to zero: scipy/jax/tfp return 0 for x < -37.7 where the exact value is about 1e-310).',
-        accuracy_claim='validated_not_proved', points=fam_counts, references=cert_counts, coq_certified_goals=ncert,
+        accuracy_claim='validated_not_proved', points=fam_counts, corpus_points=ncorpus, references=cert_counts, coq_certified_goals=ncert,
         backends=BACKENDS, precisions=PRECS, settings_run=nset, per_setting=per_setting,
         samples=[dict(family='poisson', point={k: v for k, v in pts['poisson'][5].items() if k in ('n', 'lam', 'cert')}, exact=float(pts['poisson'][5]['ref']),
                       numpy64=impl.get('numpy/64b', {}).get('poisson', {}).get('log', [None] * 6)[5]),
